@@ -106,7 +106,7 @@ struct Spec {
     full: bool,
 }
 
-const LAYOUTS: [&str; 6] = ["paired", "outer", "single", "b3", "b3r", "b213"];
+const LAYOUTS: [&str; 9] = ["paired", "outer", "single", "b3", "b3r", "b213", "c31", "c41s", "c2313"];
 
 impl Spec {
     fn key(&self) -> String {
@@ -344,7 +344,12 @@ fn specs(thorough: bool) -> Vec<Spec> {
             ("b3", "simple"),
             ("b3r", "simple"),
             ("b213", "simple"),
+            ("c31", "simple"),
+            ("c41s", "simple"),
         ];
+        if thorough || [1, 2, 8, 13, 64].contains(&w) {
+            cfgs.push(("c2313", "simple"));
+        }
         if w > 8 || big_extra {
             cfgs.push(("outer", "simple"));
         }
@@ -376,7 +381,7 @@ pub fn run(r: &Report) -> i32 {
     r.finish(
         "exploration",
         "one graph per (operation in {eq,ne,lt,le,gt,ge,min,max}, signed/unsigned, width, operand-shape layout, \
-         inline mode); layouts: paired [P,w]x[P,w], outer [M,1,w]x[1,M,w], single [w]x[w], b3 [3,w]x[w], b3r [w]x[3,w], \
+         inline mode); layouts: paired [P,w]x[P,w], outer [M,1,w]x[1,M,w], single [w]x[w], b3 [3,w]x[w], b3r [w]x[3,w], c31 [3,1,w]x[3,1,w], c41s [4,1,w]x[w], c2313 [2,3,1,w]x[3,1,w], \
          b213 [2,1,w]x[1,3,w]; for w<=8 paired and outer hold ALL 2^(2w) operand pairs, for w>8 the pair alphabet \
          (all pairs of {0,1,2,-1,-2 around 0, 2^(w-1), 2^w-1; 0x55.., 0xAA..} plus, for every bit i and in both orders, \
          base vs base^bit_i, operands whose lower bits contradict the deciding bit i, and (thorough tier) 2^i vs 0); \
